@@ -1057,3 +1057,72 @@ Lemma fds_unfixed_refuted :
 Proof.
   exists refute_parse, [[97; 10; 98; 10]; [99; 10; 100]; [10; 101; 10]]. eexists. vm_compute. repeat split; lia.
 Qed.
+
+(* ==================================================================================== *)
+(* a destination that fails *)
+Section ArchiveFaults.
+Variable parse : list byte -> option ameta.
+Variable full : apath -> bool.
+
+(* every Write of a non-empty slice that succeeds consumes at least one byte *)
+Lemma aw_write_progress fixed st p n st' : p <> [] ->
+  aw_write parse fixed st p = AwOk n st' -> (1 <= n)%nat.
+Proof.
+  intros Hp. assert (Hl : (1 <= length p)%nat) by (destruct p; [contradiction|cbn [length]; lia]).
+  unfold aw_write.
+  destruct (Z.ltb_spec 0 (aw_left st)) as [Hleft|Hleft]; destruct (aw_file st) as [h|];
+    try (intros H; injection H as <- _; lia).
+  all: destruct (index_byte ASPLIT p) as [idx|]; try (intros H; injection H as <- _; exact Hl).
+  all: destruct (parse (aw_buf st ++ firstn idx p)) as [m|]; try discriminate.
+  all: cbn zeta; destruct (afs_create (aw_fs st) m) as [[t' f']|]; try discriminate.
+  all: intros H; injection H as Hn _; pose proof extra_one as He; lia.
+Qed.
+
+Lemma aw_write_f_progress fixed st p n st' : p <> [] ->
+  aw_write_f parse full fixed st p = AwOk n st' -> (1 <= n)%nat.
+Proof.
+  intros Hp. unfold aw_write_f.
+  destruct (0 <? aw_left st)%Z; destruct (aw_file st) as [h|]; try apply aw_write_progress; try exact Hp.
+  destruct (full h && nonempty p); [discriminate|]. apply aw_write_progress. exact Hp.
+Qed.
+
+(* C15_write_error_surfaces: the failing write is an ERROR outcome of Write - nothing consumed,
+   the state unchanged - not a success with count 0 *)
+Theorem write_error_surfaces fixed st p h :
+  aw_file st = Some h -> (0 < aw_left st)%Z -> full h = true -> p <> [] ->
+  aw_write_f parse full fixed st p = AwErr AwEWrite st.
+Proof.
+  intros Hf Hl Hfull Hp. unfold aw_write_f. rewrite Hf, Hfull.
+  destruct (Z.ltb_spec 0 (aw_left st)); [|lia]. destruct p; [contradiction|reflexivity].
+Qed.
+
+(* C15_write_all_terminates: writeAll over the archive writer always returns - with the data
+   written or with the writer's error - whatever the destination does: it never runs out of the
+   fuel [length data] (one iteration per byte at most) *)
+Theorem write_all_f_terminates fixed : forall fuel st data, (length data <= fuel)%nat ->
+  aw_wa_f parse full fuel fixed st data <> AwFuel.
+Proof.
+  induction fuel as [|fuel IH]; intros st data Hlen.
+  - destruct data; [discriminate|cbn [length] in Hlen; lia].
+  - destruct data as [|b r]; [discriminate|]. cbn [aw_wa_f].
+    destruct (aw_write_f parse full fixed st (b :: r)) as [n st'|e st'] eqn:Hw; [|discriminate].
+    apply aw_write_f_progress in Hw; [|discriminate]. apply IH.
+    rewrite skipn_length. cbn [length] in *. lia.
+Qed.
+
+Theorem run_f_terminates fixed : forall ws st, aw_run_f parse full fixed st ws <> AwFuel.
+Proof.
+  induction ws as [|w ws IH]; intros st; [discriminate|]. cbn [aw_run_f].
+  destruct (aw_write_all_f parse full fixed st w) eqn:E; try discriminate; [apply IH|].
+  exfalso. revert E. apply write_all_f_terminates. lia.
+Qed.
+
+(* with a destination that never fails the faulty-destination writer is the writer *)
+Lemma aw_write_f_nofault fixed st p : (forall h, full h = false) -> aw_write_f parse full fixed st p = aw_write parse fixed st p.
+Proof.
+  intros H. unfold aw_write_f. destruct (0 <? aw_left st)%Z; destruct (aw_file st) as [h|]; try reflexivity.
+  rewrite H. reflexivity.
+Qed.
+
+End ArchiveFaults.
+
